@@ -29,6 +29,9 @@ func exitClass(e string) string {
 	case "killed":
 		return "killed"
 	}
+	if isSignalExit(e) {
+		return "signal"
+	}
 	return "nonzero"
 }
 
@@ -48,7 +51,8 @@ func rssBoundKB(streams int) int64 { return int64(streams) * 8 * (capBytes >> 10
 
 // judge applies the classification model of C17 to one observed result.
 func judge(c Case, res result) (v verdict) {
-	so, se := soByName[c.Stdout], seByName[c.Stderr]
+	so, _ := kindOf(c) // file-name family: the label of the hand-labelled (file name, announced name) row
+	se := seByName[c.Stderr]
 	soLabel, soField := so.labelFor(c.Cmd)
 	exit0 := c.Exit == "0"
 	limited := isCtxLimited(c.Ctx)
@@ -57,6 +61,12 @@ func judge(c Case, res result) (v verdict) {
 	add := func(key, what string) { v.Viols = append(v.Viols, viol{key, what}) }
 	rec := func(key string) { v.Recorded = append(v.Recorded, key) }
 	tuple := fmt.Sprintf("cmd=%s exit=%s stdout=%s stderr=%s timing=%s ctx=%s req=%s", c.Cmd, c.Exit, c.Stdout, c.Stderr, c.Timing, c.Ctx, c.Req)
+	if c.Plug != "" || c.Announce != "" {
+		tuple += fmt.Sprintf(" file=notation-%s", c.plug())
+		if c.Stdout == soAnnounces {
+			tuple += fmt.Sprintf(" announced-name=%q", c.Announce)
+		}
+	}
 
 	phase := "reply"
 	switch {
@@ -65,7 +75,15 @@ func judge(c Case, res result) (v verdict) {
 	case !faithful:
 		phase = "time"
 	}
+	if phase == "reply" && (c.Plug != "" || c.Announce != "") {
+		phase = "file-name"
+	}
 	prefix := fmt.Sprintf("%s|exit=%s|stdout=%s|stderr=%s", phase, exitClass(c.Exit), soLabel, se.Label)
+	if phase == "file-name" && c.Stdout == soAnnounces {
+		if r, ok := rowFor(c.plug(), c.Announce); ok {
+			prefix = fmt.Sprintf("%s|exit=%s|announced=%s|stderr=%s", phase, exitClass(c.Exit), r.Verdict, se.Label)
+		}
+	}
 	if phase == "time" {
 		prefix = fmt.Sprintf("time|ctx=%s|timing=%s|exit=%s", c.Ctx, c.Timing, exitClass(c.Exit))
 	}
